@@ -162,12 +162,13 @@ def decodeOp2 (s : Topo) (api : List QI) : RawOp → Option Op
 /-! ### the object an informer hands to a handler (quota_topology_check.go toElasticQuota) -/
 
 /-- toElasticQuota: shape 0 = typed *ElasticQuota, 1 = *unstructured.Unstructured, 2 = tombstone
-    (cache.DeletedFinalStateUnknown BY VALUE) holding an unstructured object, 3 = tombstone holding the typed object,
-    4 = anything else (e.g. a pointer to a tombstone).  An unstructured object is converted with client-go's
-    scheme.Scheme, which works only when the ElasticQuota type is registered there (`reg`); a tombstone is accepted only
-    when it holds an unstructured object.  `false` = the handler logs an error and returns without touching the state. -/
+    (cache.DeletedFinalStateUnknown BY VALUE) holding an unstructured object, 3 = tombstone holding the typed object
+    (what the typed informer of NewQuotaInformer yields; unpacked directly since the repair fc155e0), 4 = anything else
+    (e.g. a pointer to a tombstone).  An unstructured object is converted with client-go's scheme.Scheme, which works
+    only when the ElasticQuota type is registered there (`reg`).  `false` = the handler logs an error and returns
+    without touching the state. -/
 def convertible (reg : Bool) (shape : Nat) : Bool :=
-  shape == 0 || ((shape == 1 || shape == 2) && reg)
+  shape == 0 || shape == 3 || ((shape == 1 || shape == 2) && reg)
 
 /-- a handler invocation with the delivered representation (both objects of an update come in the same one). -/
 def applyEvAs (reg : Bool) (shape : Nat) (s : Topo) (e : Ev) : Topo :=
